@@ -14,7 +14,7 @@ RULE = ("generated Solutions: every trajectory kind (PM, ST, KS, KST, MB, Input,
 ANCHORS = ["CommonRoadSolutionWriter.dump", "CommonRoadSolutionWriter._create_sub_element",
            "CommonRoadSolutionReader._parse_state", "CommonRoadSolutionReader._parse_trajectory"]
 REQUIRED = ["kind.PM", "kind.ST", "kind.KS", "kind.KST", "kind.MB", "kind.Input", "kind.PMInput", "xsd.validated",
-            "cooperative", "non-ascending-input", "meta.date.none", "meta.date.micro", "meta.processor_name",
+            "cooperative", "non-ascending-input", "meta.date.none", "meta.date.micro", "meta.date.cleared", "meta.processor_name",
             "meta.computation_time", "pretty", "not-pretty", "file-route", "pp-id-reassigned-after-construction"]
 ASSUMPTIONS = ["state values are finite python floats / ints (ints up to 10^6 so that float() is exact)",
                "XSD validation only for documents whose trajectory types the schema defines, generated in schema order"]
@@ -173,5 +173,9 @@ def compare(ctx, sol, back, spec):
     if m.get("processor_name") != back.processor_name:
         v("processor-name", "%r -> %r" % (m.get("processor_name"), back.processor_name))
     d = sol.date
+    if "date" in m:
+        # the date that was GIVEN (None: a solution without date), not whatever the object made of it
+        import datetime as _dt
+        d = None if m["date"] is None else _dt.datetime.fromisoformat(m["date"])
     if (d is None) != (back.date is None) or (d is not None and d.replace(microsecond=0) != back.date):
         v("date/" + spec["date_kind"], "%r -> %r" % (d, back.date))
